@@ -1,5 +1,5 @@
 """Property -> rule instances (DESIGN section 4). Each entry is a function facts -> [RuleResult]."""
-from . import dim, atomic, tag, pair, canon, deleg, guard, table
+from . import dim, atomic, tag, pair, canon, deleg, guard, table, wire
 
 ALGO_FILES = {
     "C09": ("src/algo/mod.rs",),
@@ -118,6 +118,7 @@ def tag_only(funcs):
             out.append(f)
         out[0].floor = 4
         return out
+    rule.only_configs = ("all", "serde")     # link_edges exists only with feature serde-1
     return rule
 
 
@@ -280,6 +281,23 @@ PROPS["C18"] = {
                "TYPE/EDGE pair digraph with ->; the adjacency bit matrix that the graph6 encoder reads is built and queried with one stride",
     "not_decided": "spec-exactness of graph6 bit packing and triangle traversal order; DOT grammar validity of the whole output",
 }
+
+def _serde_only(rule):
+    rule.only_configs = ("all", "serde")
+    return rule
+
+
+def _wire_serde(facts):
+    return [wire.serde_structs(facts)] + wire.from_deserialized(facts)
+
+
+PROPS["C17"]["rules"].append(_serde_only(_cached("wire.serde", _wire_serde)))
+PROPS["C17"]["decides"] += "; the four wire structs agree on field order, container and field names; the edge tuple is (source, target, w) on the " \
+                           "writer and feeds node: [i, j] on the reader; every Ok exit of from_deserialized is dominated by the edge-property check, both " \
+                           "length checks and link_edges' Ok arm; the reader's length predicate is compared with what try_add_* can build"
+PROPS["C18"]["rules"].append(sub(_cached("wire.graph6", wire.graph6_constants), lambda f, s: True, 6))
+PROPS["C18"]["decides"] += "; graph6 encoder and decoder agree on N = 63, 6 bits per byte, the order < N / first byte == N header split, " \
+                           "18 header bits = 3 decoder bytes, and the 258047 cap"
 
 NOT_APPLICABLE = {
     "C13": "VF2 (sub)graph isomorphism is the result of a backtracking search over runtime adjacency; no clause of it is visible "
